@@ -1,4 +1,5 @@
 import VsbModel.Lemmas.Walk
+import VsbModel.Lemmas.WalkArchive
 set_option linter.unusedSimpArgs false
 set_option linter.unnecessarySimpa false
 
@@ -319,5 +320,54 @@ theorem exp_complete (allow : Path → Bool) :
     simp only [expNode, hr, if_false, if_true, List.mem_cons]
     right
     exact exp_children_mem allow p rel cs name c hmem ha e he
+
+
+/-! ### What is archived is a well-formed archive (links C08's walk to C01's restore) -/
+
+/-- The split form of `parentsOk`: before each archived path, its parent directory. -/
+theorem parentsOk_split (ex : Path → Bool) (evs : List Ev) (h : parentsOk ex [] evs = true)
+    (pre : List Ev) (e : Ev) (post : List Ev) (q : Path) (hs : evs = pre ++ e :: post) (he : e.arch = some q) :
+    ex q = true ∨ Ev.archDir q.dropLast ∈ pre := by
+  rw [hs, parentsOk_append, Bool.and_eq_true] at h
+  have h2 := h.2
+  simp only [parentsOk, he, Bool.and_eq_true, Bool.or_eq_true, List.contains_iff_mem, List.nil_append] at h2
+  rcases h2.1 with h3 | h3
+  · exact Or.inl h3
+  · right
+    obtain ⟨e', he', hd⟩ := List.mem_filterMap.mp h3
+    cases e' <;> simp [Ev.dir] at hd
+    rw [← hd]
+    exact he'
+
+/-- **archive_order.**  In every run — any items, trees (no directory listing a name twice), filters, hooks, errors
+at any call, overlapping or missing items, aborts — no path is archived twice, and every archived path is preceded by
+the archiving of its parent directory unless it sits directly below `/`: ancestors of item roots are archived once and
+before the roots, directories before their entries. -/
+theorem archive_order (parentOf : Path → Parent) (items : List Item) (finishOk : Bool)
+    (hn : ∀ it ∈ items, namesOk it.node = true) :
+    (archs (run parentOf items finishOk).1).Nodup ∧
+    ∀ pre e post q, (run parentOf items finishOk).1 = pre ++ e :: post → e.arch = some q →
+      q.dropLast = [] ∨ Ev.archDir q.dropLast ∈ pre := by
+  obtain ⟨h1, h2⟩ := run_wf parentOf items finishOk hn
+  refine ⟨h1, ?_⟩
+  intro pre e post q hs he
+  rcases parentsOk_split exTop _ h2 pre e post q hs he with h | h
+  · left; simpa [exTop] using h
+  · exact Or.inr h
+
+/-- The same for the archive itself: the entries written satisfy `WFArchive`, the hypothesis C01's `restore_exact`
+makes about the tree of each backup. -/
+theorem archive_wellformed {β : Type} (metaOf : Path → Vsb.Restore.Meta) (dataOf : Path → List β) (targetOf : Path → String)
+    (parentOf : Path → Parent) (items : List Item) (finishOk : Bool)
+    (hn : ∀ it ∈ items, namesOk it.node = true)
+    (hnorm : ∀ q ∈ archs (run parentOf items finishOk).1, Vsb.Restore.NormalComps q) :
+    Vsb.Restore.WFArchive (Vsb.Restore.entriesOf metaOf dataOf targetOf (run parentOf items finishOk).1) :=
+  Vsb.Restore.walk_archive_wf metaOf dataOf targetOf parentOf items finishOk hn hnorm
+
+/-- Non-vacuity: two items sharing an ancestor, the second below a cached parent. -/
+example : (archs (run (fun _ => .ok)
+    [{ resolved := some ["a", "x"], node := .dir none none true [("f", true, true, .file none none true true)] },
+     { resolved := some ["a", "y"], node := .file none none true true }]).1) =
+    [["a"], ["a", "x"], ["a", "x", "f"], ["a", "y"]] := by decide
 
 end Vsb.Walk
